@@ -12,6 +12,8 @@ import (
 
 func step(op, a, b, c, d int) hv.Val { return hv.L{hv.I(op), hv.I(a), hv.I(b), hv.I(c), hv.I(d)} }
 
+// generator-side guess of the stream phases (1 open, 2 half-closed(remote), 3 closed): only used to
+// keep connection-fatal frames (GOAWAY / close) rare before the end of a script
 func gen(r *hv.Rng, i int, tier string) (string, hv.Val) {
 	isw := 0
 	if r.Chance(1, 4) {
@@ -21,43 +23,86 @@ func gen(r *hv.Rng, i int, tier string) (string, hv.Val) {
 	if r.Chance(1, 2) {
 		maxs = r.Range(1, 4)
 	}
+	lim := maxs
+	if lim == 0 {
+		lim = 200
+	}
 	n := r.Range(2, 32)
 	var steps hv.L
-	var ids []int     // stream ids used so far (any outcome)
-	var running []int // ids whose handler may still be running
+	phase := map[int]int{}
+	var ids []int
+	running := map[int]bool{}
 	next := 1
 	class := "seq"
-	someID := func() int {
-		switch {
-		case len(ids) > 0 && r.Chance(3, 4):
-			return ids[r.Intn(len(ids))]
-		case r.Chance(1, 3):
-			return r.Range(0, next+3)
-		default:
-			return next
+	limitHit := false
+	pickID := func(f func(id int) bool) (int, bool) {
+		var c []int
+		for _, id := range ids {
+			if f(id) {
+				c = append(c, id)
+			}
 		}
+		if len(c) == 0 {
+			return 0, false
+		}
+		return c[r.Intn(len(c))], true
+	}
+	nopen := func() int {
+		k := 0
+		for _, id := range ids {
+			if phase[id] != 3 {
+				k++
+			}
+		}
+		return k
 	}
 	for len(steps) < n {
+		fatalOK := len(steps) >= n-2 || r.Chance(1, 25)
 		k := r.Intn(100)
+		overLimit := maxs > 0 && fatalOK && nopen() >= lim && r.Bool()
+		if overLimit {
+			k = 0 // one stream more than advertised
+		}
 		switch {
-		case k < 22 || len(ids) == 0: // new stream (mostly legal id)
+		case k < 20 || len(ids) == 0: // new stream
 			id := next
-			switch r.Intn(14) {
-			case 0:
-				id = next + 1 // even
-				class = "even-id"
-			case 1:
-				id = 0
-			case 2:
-				if next > 2 {
-					id = next - 2 - 2*r.Intn(2) // not increasing / reuse
-					class = "id-reuse"
+			fatal := nopen() >= lim
+			if fatalOK && !overLimit {
+				switch r.Intn(6) {
+				case 0:
+					id, fatal, class = next+1, true, "even-id"
+				case 1:
+					id, fatal = 0, true
+				case 2:
+					if next > 2 {
+						id, fatal, class = next-2-2*r.Intn(2), true, "id-reuse"
+						if id < 0 {
+							id = 1
+						}
+						if phase[id] == 1 || phase[id] == 2 {
+							fatal = false
+						}
+					}
 				}
-			case 3:
-				id = next + 2*r.Range(1, 3) // skips idle streams
 			}
-			if id < 0 {
-				id = 0
+			if fatal && !fatalOK {
+				// over the limit: finish or reset a stream instead
+				if id2, ok := pickID(func(id int) bool { return phase[id] != 3 }); ok {
+					if running[id2] && r.Bool() {
+						steps = append(steps, step(8, id2, 0, 0, 0))
+						delete(running, id2)
+					} else {
+						steps = append(steps, step(3, id2, r.Intn(9), 0, 0))
+					}
+					phase[id2] = 3
+				}
+				continue
+			}
+			if fatal && nopen() >= lim {
+				limitHit = true
+			}
+			if r.Chance(1, 8) && id == next {
+				id = next + 2*r.Range(1, 3) // skips idle streams
 			}
 			es := r.Intn(2)
 			kind := 0
@@ -73,53 +118,108 @@ func gen(r *hv.Rng, i int, tier string) (string, hv.Val) {
 				next = id + 2
 				ids = append(ids, id)
 				if kind == 0 || (kind == 2 && es == 1) {
-					running = append(running, id)
+					running[id] = true
+					phase[id] = 1 + es
+				} else {
+					phase[id] = 3
 				}
 			}
-		case k < 40: // HEADERS on an existing stream: trailers, second HEADERS on half-closed, closed
-			id := someID()
+		case k < 40: // HEADERS on an existing stream: trailers, HEADERS on half-closed; on closed = fatal
+			id, ok := pickID(func(id int) bool { return fatalOK || phase[id] != 3 })
+			if !ok {
+				continue
+			}
 			kind := 1
 			if r.Chance(1, 3) {
 				kind = 0
 			}
-			steps = append(steps, step(1, id, r.Intn(4)/1%2, kind, -1))
+			es := r.Intn(2)
+			steps = append(steps, step(1, id, es, kind, -1))
 			class = "trailers"
-		case k < 60: // DATA on any stream state
-			id := someID()
+			switch phase[id] {
+			case 1:
+				if es == 1 && kind == 1 {
+					phase[id] = 2
+				} else {
+					phase[id] = 3
+				}
+			case 2:
+				phase[id] = 3
+			}
+		case k < 60: // DATA on any stream state (never fatal except id 0)
+			id, ok := pickID(func(id int) bool { return true })
+			if !ok || r.Chance(1, 6) {
+				id = r.Range(1, next+3)
+			}
+			if fatalOK && r.Chance(1, 4) {
+				id = 0
+			}
 			pad := -1
 			if r.Chance(1, 4) {
 				pad = r.Intn(20)
 			}
-			steps = append(steps, step(2, id, r.Intn(30), pad, r.Intn(2)))
-		case k < 70: // RST on open / closed / idle
-			steps = append(steps, step(3, someID(), r.Intn(9), 0, 0))
+			es := r.Intn(2)
+			steps = append(steps, step(2, id, r.Intn(30), pad, es))
+			if phase[id] == 1 {
+				if es == 1 {
+					phase[id] = 2
+				}
+			} else if phase[id] == 2 {
+				phase[id] = 3
+			}
+		case k < 70: // RST on open / closed; idle or 0 = fatal
+			id, ok := pickID(func(id int) bool { return true })
+			if !ok {
+				continue
+			}
+			if r.Chance(1, 5) {
+				id = r.Range(1, next-1) // closed or never-used id below the maximum: ignored
+			}
+			if fatalOK && r.Chance(1, 3) {
+				id = []int{0, next, next + 1}[r.Intn(3)]
+				class = "idle-rst"
+			}
+			steps = append(steps, step(3, id, r.Intn(9), 0, 0))
+			if phase[id] != 0 {
+				phase[id] = 3
+			}
 		case k < 84: // handler returns (interleaving with client frames)
-			if len(running) == 0 {
+			id, ok := pickID(func(id int) bool { return running[id] })
+			if !ok {
 				continue
 			}
-			j := r.Intn(len(running))
-			steps = append(steps, step(8, running[j], 0, 0, 0))
-			running = append(running[:j], running[j+1:]...)
+			steps = append(steps, step(8, id, 0, 0, 0))
+			delete(running, id)
+			phase[id] = 3
 		case k < 92: // handler reads
-			if len(running) == 0 {
+			id, ok := pickID(func(id int) bool { return running[id] })
+			if !ok {
 				continue
 			}
-			steps = append(steps, step(6, running[r.Intn(len(running))], r.Range(1, 40), 0, 0))
+			steps = append(steps, step(6, id, r.Range(1, 40), 0, 0))
 		case k < 94:
-			if len(running) == 0 {
+			id, ok := pickID(func(id int) bool { return running[id] })
+			if !ok {
 				continue
 			}
-			steps = append(steps, step(7, running[r.Intn(len(running))], 0, 0, 0))
+			steps = append(steps, step(7, id, 0, 0, 0))
 		case k < 96:
+			if !fatalOK {
+				continue
+			}
 			steps = append(steps, step(9, r.Range(1, next+2), 0, 0, 0))
 			class = "push"
 		case k < 98:
-			steps = append(steps, step(4, someID(), r.Range(1, 100), 0, 0))
+			id, ok := pickID(func(id int) bool { return true })
+			if !ok || r.Bool() {
+				id = r.Range(0, next+2)
+			}
+			steps = append(steps, step(4, id, r.Range(1, 100), 0, 0))
 		default:
 			steps = append(steps, step(5, r.Range(0, 70000), 0, 0, 0))
 		}
 	}
-	if maxs > 0 && len(ids) > maxs {
+	if limitHit {
 		class += "+limit"
 	}
 	return class, hv.L{hv.L{hv.I(isw), hv.I(maxs)}, steps}
